@@ -1,5 +1,8 @@
 """C18 - frozen networks cannot be structurally modified (mutators discovered by probing)."""
+import copy
 import inspect
+
+import numpy as np
 import random
 
 from hypothesis import strategies as st
@@ -60,8 +63,41 @@ def function_candidates():
 
 
 RANDOMISED = {"random_edge_shuffle"}
+
+
+# library functions that fill a network handed in as `create_using` ("if hypergraph instance, then cleared before populated"):
+# with a frozen instance they are in-place functions in the sense of the statement. name -> positional data arguments
+def _cu_data():
+    import pandas as pd
+
+    return {
+        "empty_hypergraph": (), "empty_dihypergraph": (), "empty_simplicial_complex": (), "trivial_hypergraph": (3,),
+        "from_hyperedge_list": ([[90, 91], [91, 92, 93]],), "from_hyperedge_dict": ({"p": [90, 91], "q": [91, 92]},),
+        "from_simplex_dict": ({"p": [90, 91]},), "from_incidence_matrix": (np.array([[1, 0], [1, 1], [0, 1]]),),
+        "from_bipartite_pandas_dataframe": (pd.DataFrame([[90, "p"], [91, "p"], [91, "q"]]),),
+        "to_hypergraph": ([[90, 91], [91, 92]],), "to_dihypergraph": ([([90], [91]), ([91], [92, 93])],), "to_simplicial_complex": ([[90, 91, 92]],),
+        "parse_edgelist": (["90 91", "91 92 93"],), "parse_bipartite_edgelist": (["90 p", "91 p", "91 q"],),
+    }
+
+
+def cu_candidates():
+    out = {}
+    for n in _cu_data():
+        f = getattr(xgi, n, None)
+        if f is None:
+            continue
+        try:
+            if "create_using" not in inspect.signature(f).parameters:
+                continue
+        except (TypeError, ValueError):
+            continue
+        for key in CLASSES:
+            out[(key, "cu:" + n)] = f
+    return out
 METHODS = method_candidates()
 FUNCTIONS = function_candidates()
+CU = cu_candidates()
+FUNCTIONS.update(CU)
 CANDS = sorted(list(METHODS) + list(FUNCTIONS))
 
 
@@ -233,6 +269,8 @@ def call(H, key, cand, kw, picks=(0,)):
     if cand.startswith("method:"):
         return getattr(H, cand[7:])(**kw)
     f = FUNCTIONS[(key, cand)]
+    if cand.startswith("cu:"):
+        return f(*copy.deepcopy(_cu_data()[cand[3:]]), create_using=H)
     return f(H, **kw)
 
 
@@ -254,7 +292,7 @@ def run_case(case, ctx):
         ctx.event("uncovered:" + cand)
         return
     sig = informative_signature(sig, name)
-    kw = synth(H, key, name, sig, case["picks"])
+    kw = {} if cand.startswith("cu:") else synth(H, key, name, sig, case["picks"])
     if kw is None:
         ctx.event("uncovered:" + cand)
         return
@@ -295,7 +333,7 @@ def run_case(case, ctx):
                 F = None
             if F is not None:
                 before = nets.structure(U)
-                kwu = synth(U, key, name, sig, case["picks"])
+                kwu = {} if cand.startswith("cu:") else synth(U, key, name, sig, case["picks"])
                 if kwu is None:
                     return
                 kw = kwu
@@ -308,12 +346,13 @@ def run_case(case, ctx):
                 ctx.event("sub-" + ("mutator:" if mutates else "no-change:") + key + "." + name)
     else:
         F = nets.build(case["spec"])
+        ctx.check(F.is_frozen is False, ("is_frozen", key, "true-before-freeze"), "")  # read once before freezing: the answer must not stick
         F.freeze()
     if F is None:
         return
     ctx.check(F.is_frozen is True, ("is_frozen", key, case["via"], "false-on-frozen"), "")
     fb = state(F)
-    kw2 = synth(F, key, name, sig, case["picks"]) if case["via"] == "subhypergraph" else synth(H, key, name, sig, case["picks"])
+    kw2 = {} if cand.startswith("cu:") else (synth(F, key, name, sig, case["picks"]) if case["via"] == "subhypergraph" else synth(H, key, name, sig, case["picks"]))
     exc = None
     try:
         call(F, key, cand, kw2, case["picks"])
@@ -340,7 +379,7 @@ def run_case(case, ctx):
     if mutates and case["via"] == "freeze":
         cb = nets.structure(Cp)
         try:
-            call(Cp, key, cand, synth(H, key, name, sig, case["picks"]), case["picks"])
+            call(Cp, key, cand, {} if cand.startswith("cu:") else synth(H, key, name, sig, case["picks"]), case["picks"])
         except Exception as e:  # noqa: BLE001
             ctx.check(p1 == "raised", ("copy-of-frozen", key + "." + name, "copy-refuses-the-mutation"), lambda: "%r" % (e,))
         # a randomised rewiring may be the identity on one of two equal networks and not on the other (set iteration order differs
